@@ -26,4 +26,5 @@ def run(rep, tier, seed):
                         ["StatsExact"], liveness=False, key="read")
     SC.model_and_replay(rep, "w", SC.write_grid(tier), "c05_w_" + tier, ["StatsExact"], liveness=False, key="write")
     rep.cov["distinct_nontrivial"] = len(recs) + sum(m["edges"] for m in rep.cov.get("m1", []))
+    SC.pair_sessions(rep, seed + 5, 1 if tier == "quick" else 6)
     rep.assumptions += ["the independent decoder is trusted for the header layout"]
